@@ -535,3 +535,117 @@ Proof.
         assert (INA : In ct add) by (rewrite E0; apply in_or_app; right; right; exact ICT).
         apply NEW. unfold qru. apply in_flat_map. exists ct. split; [exact INA|]. unfold ru. rewrite RCT. left. exact CUT.
 Qed.
+
+(* ------------------------------------------------------------------ *)
+(** * Batch micro-ops: the main queue moves to the continuation in order, or is dropped *)
+
+Lemma tops_nomark a k mk : tops k = true -> In mk k -> ~ markm a mk.
+Proof. intros T IN. unfold tops in T. rewrite forallb_forall in T. specialize (T _ IN). destruct mk; try discriminate T; intros []. Qed.
+
+Lemma batch_rest a m k0 : shape (m :: k0) -> batchop m = true -> (forall mk, In mk k0 -> ~ markm a mk) /\ kru a k0 = [].
+Proof.
+  intros [p [PH _]] B. unfold phase_of in PH. destruct m; try discriminate B; simpl in PH.
+  - (* MNew *) destruct (tops k0) eqn:TP; [|discriminate]. split; [intros mk; apply tops_nomark; auto | apply kru_tops; auto].
+  - (* MRunMain *)
+    destruct k0 as [|m1 k1]; [discriminate|]. destruct m1; try discriminate PH.
+    destruct ((t =? t0) && tops k1) eqn:TP; [|discriminate]. apply andb_prop in TP as [_ TP]. split.
+    + intros mk [<-|IN]; [intros [] | eapply tops_nomark; eauto].
+    + rewrite kru_cons. simpl. apply kru_tops; auto.
+  - destruct (tops k0) eqn:TP; [|discriminate]. split; [intros mk; apply tops_nomark; auto | apply kru_tops; auto].
+  - destruct (tops k0) eqn:TP; [|discriminate]. split; [intros mk; apply tops_nomark; auto | apply kru_tops; auto].
+Qed.
+
+Lemma map_runitem_split (l : list citem) k1 mk p2 : map MRunItem l = k1 ++ mk :: p2 ->
+  exists l1 c l2, l = l1 ++ c :: l2 /\ mk = MRunItem c /\ p2 = map MRunItem l2.
+Proof.
+  revert k1. induction l as [|x l IH]; intros k1 E; simpl in E.
+  - destruct k1; discriminate.
+  - destruct k1 as [|y k1]; simpl in E.
+    + inversion E; subst. exists [], x, l. auto.
+    + inversion E; subst. destruct (IH _ H1) as (l1 & c & l2 & -> & -> & ->). exists (x :: l1), c, l2. auto.
+Qed.
+
+Lemma nomark_in_dropitems a l mk : In mk (map MDropItem l) -> ~ markm a mk.
+Proof. intros IN. apply in_map_iff in IN as (c & <- & _). intros []. Qed.
+
+Lemma beh_batch a u m k0 s pre s' :
+  shape (m :: k0) -> QTags s -> batchop m = true -> handle m s = (pre, s') ->
+  beh a (pre ++ k0) s' u -> beh a (m :: k0) s u.
+Proof.
+  intros SH QT B E BH. destruct (batch_rest a _ _ SH B) as [NM K0].
+  (* a marker among run items of a list [main ++ plain] with the token behind it *)
+  assert (RUN : forall main plain rest, mainq s = main -> Forall (fun c => ci_call c = false) plain -> kru a rest = [] ->
+                (forall mk, In mk rest -> ~ markm a mk) ->
+                forall k1 mk k2, map MRunItem (main ++ plain) ++ rest = k1 ++ mk :: k2 -> markm a mk -> In u (kru a k2) ->
+                beh a (m :: k0) s u).
+  { intros main plain rest MQ PL KR NR k1 mk k2 EK MK T.
+    apply app_split in EK as [(p2 & EP & E2)|(c' & E1 & E0)].
+    - apply map_runitem_split in EP as (l1 & c & l2 & EL & -> & ->). simpl in MK.
+      apply app_split in EL as [(q2 & EM & E3)|(c2 & E4 & E5)].
+      + right. exists l1, c, q2. split; [rewrite MQ; exact EM|]. split; [exact MK|].
+        subst k2 l2. rewrite kru_app, kru_runitems, qru_app, KR, (qru_plain a plain PL), !app_nil_r in T. exact T.
+      + exfalso. rewrite Forall_forall in PL. eapply plain_notterm; [apply PL; rewrite E5; apply in_or_app; right; left; reflexivity | exact MK].
+    - exfalso. eapply NR; [rewrite E0; apply in_or_app; right; left; reflexivity | exact MK]. }
+  destruct m; try discriminate B; cbn [handle] in E.
+  - (* MNew *)
+    injp E. exfalso. destruct BH as [(k1 & mk & k2 & EK & MK & T)|(q1 & c & q2 & EQ & _)].
+    + apply app_split in EK as [(p2 & EP & _)|(c' & _ & E0)].
+      * eapply nomark_in_dropitems; [rewrite EP; apply in_or_app; right; left; reflexivity | exact MK].
+      * eapply NM; [rewrite E0; apply in_or_app; right; left; reflexivity | exact MK].
+    + unfold fresh_stakker in EQ. cbn [mainq set_shut set_haslogger set_logfilter set_logseq set_recreate set_tvars set_start set_now set_alive set_mainq] in EQ.
+      destruct q1; discriminate EQ.
+  - (* MRunMain *)
+    assert (FT : forall t0, Forall (fun c => ci_call c = false) (map ti_ci (ti_sort (filter (ti_due t0) (timers s))))).
+    { intros t0. apply Forall_forall. intros c Hc. apply in_map_iff in Hc as (y & <- & Hy).
+      apply ti_sort_in in Hy. apply filter_In in Hy as [Hy _].
+      pose proof (qt_timers _ QT) as TT. eapply Forall_forall in TT; [destruct TT as [C _]; exact C | apply in_map; exact Hy]. }
+    destruct (t >? now (set_mainq s [])).
+    + destruct (fire t (set_now (set_mainq s []) t)) as [fired s2] eqn:FI. unfold fire in FI. injection FI as ? ?; subst. injp E.
+      destruct BH as [(k1 & mk & k2 & EK & MK & [T|T])|(q1 & c & q2 & EQ & _)].
+      * eapply (RUN (mainq s) _ k0 eq_refl (FT t) K0 NM); eauto.
+      * exfalso. destruct (ambiguous _); cbn [mainq set_timers set_now set_mainq emit set_tr] in T; destruct T.
+      * exfalso. destruct (ambiguous _); cbn [mainq set_timers set_now set_mainq emit set_tr] in EQ; destruct q1; discriminate EQ.
+    + injp E. destruct BH as [(k1 & mk & k2 & EK & MK & [T|T])|(q1 & c & q2 & EQ & _)].
+      * rewrite <- (app_nil_r (mainq s)) in EK. eapply (RUN (mainq s) [] k0 eq_refl (Forall_nil _) K0 NM); eauto.
+      * destruct T.
+      * destruct q1; discriminate EQ.
+  - (* MLoop *)
+    destruct (mainq s) as [|c0 l] eqn:MQ.
+    + destruct (lazyq s) as [|c1 l1] eqn:LQ; injp E.
+      * exfalso. destruct BH as [(k1 & mk & k2 & EK & MK & _)|(q1 & c & q2 & EQ & _)].
+        -- simpl in EK. eapply NM; [rewrite EK; apply in_or_app; right; left; reflexivity | exact MK].
+        -- assert (MS : forall e, mainq (emit (if t >? recreate s then set_recreate s (t + RECREATE_SECS * 1000) else s) e) = mainq s)
+             by (intros e; destruct (t >? recreate s); reflexivity).
+           rewrite MS, MQ in EQ. destruct q1; discriminate EQ.
+      * exfalso. destruct BH as [(k1 & mk & k2 & EK & MK & _)|(q1 & c & q2 & EQ & _)].
+        -- rewrite <- app_assoc in EK. apply app_split in EK as [(p2 & EP & _)|(c' & _ & E0)].
+           ++ apply map_runitem_split in EP as (l2 & c & l3 & EL & -> & _). simpl in MK.
+              pose proof (qt_lazy _ QT) as TL. rewrite LQ in TL. rewrite Forall_forall in TL.
+              destruct (TL c) as [C _]; [rewrite EL; apply in_or_app; right; left; reflexivity|]. eapply plain_notterm; eauto.
+           ++ destruct c' as [|x c']; simpl in E0; [inversion E0; subst; destruct MK|]. inversion E0 as [[X1 X2]].
+              eapply NM; [rewrite X2; apply in_or_app; right; left; reflexivity | exact MK].
+        -- cbn [mainq set_lazyq] in EQ. rewrite MQ in EQ. destruct q1; discriminate EQ.
+    + injp E. destruct BH as [(k1 & mk & k2 & EK & MK & [T|T])|(q1 & c & q2 & EQ & _)].
+      * rewrite <- app_assoc in EK. rewrite <- (app_nil_r (c0 :: l)) in EK.
+        eapply (RUN (c0 :: l) [] ([MLoop t] ++ k0) eq_refl (Forall_nil _)); eauto.
+        intros mk0 [<-|IN]; [intros [] | apply NM; exact IN].
+      * destruct T.
+      * destruct q1; discriminate EQ.
+  - (* MDrain *)
+    destruct (i >=? TEARDOWN_ROUNDS).
+    + injp E. destruct BH as [(k1 & mk & k2 & EK & MK & _)|(q1 & c & q2 & EQ & CK & T)].
+      * exfalso. destruct k1 as [|x k1]; simpl in EK; [inversion EK; subst; destruct MK|]. inversion EK as [[X1 X2]].
+        eapply NM; [rewrite X2; apply in_or_app; right; left; reflexivity | exact MK].
+      * right. exists q1, c, q2. split; [|auto]. destruct (is_nil (mainq s)); exact EQ.
+    + destruct (mainq s) as [|c0 l] eqn:MQ; injp E.
+      * exfalso. destruct BH as [(k1 & mk & k2 & EK & MK & _)|(q1 & c & q2 & EQ & _)].
+        -- destruct k1 as [|x k1]; simpl in EK; [inversion EK; subst; destruct MK|]. inversion EK as [[X1 X2]].
+           eapply NM; [rewrite X2; apply in_or_app; right; left; reflexivity | exact MK].
+        -- rewrite MQ in EQ. destruct q1; discriminate EQ.
+      * exfalso. destruct BH as [(k1 & mk & k2 & EK & MK & _)|(q1 & c & q2 & EQ & _)].
+        -- rewrite <- app_assoc in EK. apply app_split in EK as [(p2 & EP & _)|(c' & _ & E0)].
+           ++ eapply nomark_in_dropitems; [rewrite EP; apply in_or_app; right; left; reflexivity | exact MK].
+           ++ destruct c' as [|x c']; simpl in E0; [inversion E0; subst; destruct MK|]. inversion E0 as [[X1 X2]].
+              eapply NM; [rewrite X2; apply in_or_app; right; left; reflexivity | exact MK].
+        -- destruct q1; discriminate EQ.
+Qed.
